@@ -88,11 +88,12 @@ func (ln *listener) Accept() (net.Conn, error) {
 
 // Close implements Listener.
 func (ln *listener) Close() error {
-	if ln.fd != 0 {
-		syscall.Close(ln.fd)
-	}
 	if ln.file != nil {
+		// ln.fd belongs to ln.file: closing the number as well would close it twice,
+		// and the second close can hit a descriptor somebody else has opened meanwhile.
 		ln.file.Close()
+	} else if ln.fd != 0 {
+		syscall.Close(ln.fd)
 	}
 	if ln.ln != nil {
 		ln.ln.Close()
